@@ -113,7 +113,15 @@ NearUlps(x, y, prec, ulps) == DyLe(DyAbs(DySub(x, y)), DyShift(DyMulInt(DyMax(Dy
 NearUlpsF(f1, k, f2, prec, ulps) == (f1.tag # "fin" \/ f2.tag # "fin") \/ NearUlps(DyShift(FDy(f1), k), FDy(f2), prec, ulps)
 \* geometric bounds are exp of log-space bounds: an absolute error there is a relative error here, growing with |log2 bound|
 Log2Bound(g) == IF g.tag # "fin" \/ g.m = <<>> THEN 0 ELSE LET t == g.e + 15 * Len(g.m) IN (IF t < 0 THEN -t ELSE t) + 15
-ReorderUlps(e, f) == IF e.fl = "geo" THEN 64 * (2 + Log2Bound(f)) ELSE 64
+\* harmonic bounds are reciprocals of reciprocal-space bounds m -/+ c se: close to 0 (high levels, few observations) the
+\* cancellation amplifies the rounding error by about |bound| / H
+AmpHarm(e, f) == IF f.tag # "fin" \/ e.stats.mean.tag # "fin" \/ e.stats.mean.m = <<>> THEN 1
+                 ELSE LET x == DyAbs(FDy(f))  h == DyAbs(FDy(e.stats.mean))  ex == Min2(DyE(x), DyE(h))
+                          q == BigDivFloor(DyAt(x, ex), DyAt(h, ex)) IN
+                      IF BigFitsInt(q) THEN 1 + BigToInt(q) ELSE 1073741824
+ReorderUlps(e, f) == IF e.fl = "geo" THEN 64 * (2 + Log2Bound(f))
+                     ELSE IF e.fl = "harm" THEN (LET a == AmpHarm(e, f) IN IF a > 1000000 THEN 2000000000 ELSE 64 * a)
+                     ELSE 64
 SameShape(o1, o2) == o1.tag = o2.tag /\ (o1.tag = "ok" => o1.iv.kind = o2.iv.kind)
 \* scaling by a power of two is exact for these (reciprocals of powers of two are exact as well)
 ExactFl(e) == e.fl \in {"arith", "paired", "unpaired", "harm"}
